@@ -32,6 +32,7 @@ class PathRules:
         self.D = D or Discharger(facts)
         self.methods = world.path_methods()
         self._bodies = {}
+        self._entered = {}      # pass-through helper id -> [(calling code body, block of the call)]
 
     # ------------------------------------------------------------------ helpers
     def bodies(self, name):
@@ -51,6 +52,7 @@ class PathRules:
                 hb = self.inter.local_callee(s)
                 if self.private_helper(hb) and hb.id != b.id and len(s.args) == b.arg_count and \
                         len(s.args) >= 1 and all(self.is_arg(tr.operand(a), i) for i, a in enumerate(s.args)):
+                    self._entered.setdefault(hb.id, []).append((cb, s.bb))
                     for hcb in self.inter.code_bodies(hb):
                         if hcb.id not in seen:
                             seen.add(hcb.id)
@@ -75,7 +77,31 @@ class PathRules:
         return out
 
     def guards(self, cb, bb):
-        return self.D.guards(cb, bb)
+        gs = list(self.D.guards(cb, bb))
+        # inside a pass-through helper (see bodies) everything that held where the method entered it still holds
+        # (argument i means the same value on both sides); with several call sites only what holds at all of them
+        root = cb.root if cb.kind == "Closure" and cb.root else cb.id
+        calls = self._entered.get(root)
+        if calls:
+            def canon(t):
+                # the same argument of two callers (copy_file / move_file sharing a helper) is the same value inside the helper
+                if isinstance(t, tuple):
+                    if t and t[0] == "arg" and len(t) > 3:
+                        return ("arg", t[1])
+                    if t and t[0] == "call" and len(t) > 3:
+                        return ("call", t[1], canon(t[2]))
+                    return tuple(canon(x) for x in t)
+                return t
+            common = None
+            for ccb, cbb in calls:
+                g2 = self.guards(ccb, cbb)
+                if common is None:
+                    common = g2
+                else:
+                    c2 = {canon(g) for g in g2}
+                    common = [g for g in common if canon(g) in c2]
+            gs.extend(g for g in (common or []) if g not in gs)
+        return gs
 
     def arg(self, b, i):
         return ("arg", i, None, b.id)
